@@ -17,6 +17,8 @@ structure St where
   knames : List Bytes := []
   vnames : List Bytes := []
   store : MStore := []
+  /-- the second fact `G` (same schema) -/
+  storeG : MStore := []
 
 def parseVal (t : String) : Option HVal :=
   match t.toList with
@@ -133,13 +135,82 @@ def parseField (t : String) : Option Bytes :=
   | [n, _] => some (n.toList.map fun c => UInt8.ofNat c.toNat)
   | _ => none
 
+/-- split a token list at the `//` tokens -/
+def splitDSlash (ts : List String) : List (List String) :=
+  let rec go : List String → List String → List (List String) → List (List String)
+    | [], cur, acc => (cur.reverse :: acc).reverse
+    | t :: rest, cur, acc => if t == "//" then go rest [] (cur.reverse :: acc) else go rest (t :: cur) acc
+  go ts [] []
+
+/-- one part of a `mapx`: `<F|G> [@] K.. / P..` → (store, bound to the outer's first key?, query) -/
+def parsePart (s : St) (ts : List String) : Option (MStore × Bool × Query) :=
+  match ts with
+  | f :: rest =>
+    let st? := if f == "F" then some s.store else if f == "G" then some s.storeG else none
+    match st? with
+    | none => none
+    | some st =>
+      let (atO, rest) := match rest with
+        | "@" :: r => (true, r)
+        | r => (false, r)
+      match splitSlash rest with
+      | [kts, pts] => do
+        let ks ← parseAll kts
+        if ks.length + (if atO then 1 else 0) > s.knames.length then none else
+        let vs ← patVals s.vnames pts
+        -- with `@` the given keys are the ones after the first key
+        pure (st, atO, ⟨zipKeys (if atO then s.knames.drop 1 else s.knames) ks, vs⟩)
+      | _ => none
+  | [] => none
+
+def showTagged (l : List (Nat × Fact)) : String :=
+  "[" ++ ";".intercalate (l.map fun (t, f) => s!"{t}:" ++ showFact f) ++ "]"
+
+def mapx (s : St) (shape : String) (rest : List String) : String :=
+  match (splitDSlash rest).mapM (parsePart s) with
+  | none => "bad-op"
+  | some parts =>
+    if shape == "seq" then
+      if parts.isEmpty || parts.any (fun p => p.2.1) then "bad-op" else
+      let rec go : List (MStore × Bool × Query) → Nat → Except IOErr (List (Nat × Fact))
+        | [], _ => .ok []
+        | (st, _, q) :: r, i =>
+          match opMap q st with
+          | .error e => .error e
+          | .ok fs => match go r (i + 1) with
+            | .error e => .error e
+            | .ok tl => .ok (fs.map (fun f => (i, f)) ++ tl)
+      match go parts 0 with
+      | .ok l => showTagged l
+      | .error e => showIOErr e
+    else if shape == "nest" || shape == "nestcall" then
+      match parts with
+      | [(so, false, qo), (si, atO, qi)] =>
+        let inner (f : Fact) : Query :=
+          if atO then ⟨(f.keys.take 1) ++ qi.keys, qi.vals⟩ else qi
+        match opMapNested qo inner so si with
+        | .ok l => showTagged l
+        | .error e => showIOErr e
+      | _ => "bad-op"
+    else "bad-op"
+
 def step (s : St) (toks : List String) : St × String :=
   match toks with
+  | "mapx" :: shape :: rest => (s, mapx s shape rest)
+  | "createg" :: rest =>
+    match splitSlash rest with
+    | [kts, vts] =>
+      match parseAll kts, parseAll vts with
+      | some ks, some vs =>
+        if ks.length != s.knames.length || vs.length != s.vnames.length then (s, "bad-op") else
+        ({ s with storeG := opCreate ⟨zipKeys s.knames ks, s.vnames.zip vs⟩ s.storeG }, "ok")
+      | _, _ => (s, "bad-op")
+    | _ => (s, "bad-op")
   | "schema" :: rest =>
     match splitSlash rest with
     | [ks, vs] =>
       match ks.mapM parseField, vs.mapM parseField with
-      | some k, some v => ({ knames := k, vnames := v, store := [] }, "ok")
+      | some k, some v => ({ knames := k, vnames := v, store := [], storeG := [] }, "ok")
       | _, _ => (s, "bad-op")
     | _ => (s, "bad-op")
   | "create" :: rest =>
